@@ -1093,8 +1093,9 @@ theorem c02_stacked_column (nFit nsIdx p : ℕ) (h : nsIdx < nFit) (hp : p < nFi
     (gp : List (List ℤ)) (W : List ℝ) (d : DSIn ℝ) :
     (stDS (otherIds nFit nsIdx) gp W d).dXs[if p < nsIdx then p else p - 1]?
       = some (d.ev.map (fun row =>
-          dxOfDRatio d.N (wRatioGrad (aRow W d.Y) (stDaRow gp W d p) (row.map leafRatio)
-            (List.zipWith (fun g l => leafGrad gp g p l) gp row)))) := by
+          dxOfDRatio d.N (wRatioGradCode (yieldDep gp p) (ratioDep d.parA d.parB gp p) (aRow W d.Y)
+            (stDaRow gp W d p) (row.map leafRatio)
+            (List.zipWith (fun g l => leafGrad d.parA d.parB gp g p l) gp row)))) := by
   have hq : (if p < nsIdx then p else p - 1) < nFit - 1 := by split_ifs <;> omega
   simp only [stDS, List.getElem?_map, otherIds_getElem? nFit nsIdx _ h hq]
   have : (if (if p < nsIdx then p else p - 1) < nsIdx then (if p < nsIdx then p else p - 1)
@@ -1438,3 +1439,72 @@ example : total [[(2 : ℝ), 1], [0, 3]] ≠ 0 ∧ (0 : ℝ) < sumF [(2 : ℝ), 
 
 /-- `c02_stacked_shape` / `c02_stacked_column`: ns in the middle of three fit parameters -/
 example : otherIds 3 1 = [0, 2] ∧ assemble 1 (10 : ℤ) [20, 30] = [20, 10, 30] := by decide
+
+/-! ## Round 3: the early exit of `SourceWeightedPDFRatio.get_gradient` -/
+
+namespace C02
+theorem dot_zero_left (xs ys : List ℝ) (h : ∀ x ∈ xs, x = 0) : dot xs ys = 0 := by
+  unfold dot
+  rw [sumF_eq_sum]
+  apply List.sum_eq_zero
+  intro z hz
+  rw [List.mem_iff_getElem] at hz
+  obtain ⟨i, hi, rfl⟩ := hz
+  simp only [List.getElem_zipWith]
+  rw [h _ (List.getElem_mem _)]
+  simp
+
+theorem dot_zero_right (xs ys : List ℝ) (h : ∀ y ∈ ys, y = 0) : dot xs ys = 0 := by
+  unfold dot
+  rw [sumF_eq_sum]
+  apply List.sum_eq_zero
+  intro z hz
+  rw [List.mem_iff_getElem] at hz
+  obtain ⟨i, hi, rfl⟩ := hz
+  simp only [List.getElem_zipWith]
+  rw [h _ (List.getElem_mem _)]
+  simp
+
+theorem sumF_zero (xs : List ℝ) (h : ∀ x ∈ xs, x = 0) : sumF xs = 0 := by
+  rw [sumF_eq_sum]
+  exact List.sum_eq_zero h
+end C02
+
+/-- **The early exit is sound exactly under both flags**: when neither the source weights (`a_k_grad`: no yield
+gradient for this fit parameter) nor the wrapped PDF ratio depend on the fit parameter, the quotient-rule
+expression is `0`, so `wRatioGradCode` (with honest flags: a `false` flag means all those derivatives vanish)
+always equals the quotient-rule expression `wRatioGrad` — which `c02_weighted_ratio_grad` proves to be the
+derivative. -/
+theorem c02_weighted_early_exit (yDep rDep : Bool) (ak dak Rk dRk : List ℝ)
+    (hy : yDep = false → ∀ x ∈ dak, x = 0) (hr : rDep = false → ∀ x ∈ dRk, x = 0) :
+    wRatioGradCode yDep rDep ak dak Rk dRk = wRatioGrad ak dak Rk dRk := by
+  unfold wRatioGradCode
+  cases yDep <;> cases rDep <;> simp
+  have h1 := hy rfl
+  have h2 := hr rfl
+  unfold wRatioGrad
+  rw [sumF_zero dak h1, dot_zero_left dak Rk h1, dot_zero_right ak dRk h2]
+  split_ifs <;> simp
+
+/-- An early exit on the PDF-ratio flag **alone** is not sound: two sources with equal weights, only the first
+weight depends on the parameter (`a' = [1, 0]`), parameter-free ratios `R = [2, 0]`: the derivative of
+`R_i = Σ a_k R_ik / A` is `1/2`, not `0` — the contribution through the detector signal yields. -/
+theorem c02_weighted_early_exit_needs_yield_flag :
+    wRatioGrad [(1 : ℝ), 1] [1, 0] [2, 0] [0, 0] = 1 / 2 ∧
+    wRatioGradCode true false [(1 : ℝ), 1] [1, 0] [2, 0] [0, 0] = 1 / 2 := by
+  constructor <;>
+    simp [wRatioGradCode, wRatioGrad, wRatio, dot, sumF] <;> norm_num
+
+/-- the flags `Grad.stacked` uses are honest on the leaf side: if `ratioDep` is `false` every leaf derivative
+handed to `wRatioGradCode` is `0` (source rows taken from the table) -/
+theorem c02_ratioDep_honest (parA parB : Bool) (gp : List (List ℤ)) (p : ℕ)
+    (h : ratioDep parA parB gp p = false) (row : List (Leaf ℝ)) :
+    ∀ x ∈ List.zipWith (fun g l => leafGrad parA parB gp g p l) gp row, x = 0 := by
+  intro x hx
+  rw [List.mem_iff_getElem] at hx
+  obtain ⟨i, hi, rfl⟩ := hx
+  simp only [List.getElem_zipWith]
+  unfold ratioDep at h
+  simp only [Bool.or_eq_false_iff] at h
+  unfold leafGrad productGrad
+  simp [h.1, h.2]
